@@ -1,2 +1,113 @@
-(* C03 — placeholder: theorems are added as the proofs land. *)
-From EDP Require Import Base.Bytes Term.Term Codec.Decode.
+(* C03 — every valid external encoding of a value decodes to exactly that value.
+   Stage reached: the canonical forms (C01), the trailing-data rule, and each alternative / legacy form of a single
+   node are proved for all field values; arbitrary mixtures of alternative forms inside containers are covered by the
+   correspondence run, whose encodings come from a spec-side encoder (see DESIGN.md). *)
+From EDP Require Import Base.Bytes Term.Term Term.Value Gen.Tags Gen.Limits Gen.DecoderArms.
+From EDP Require Import Codec.Encode Codec.Decode Codec.DecodeFacts Codec.Norm Codec.RoundTrip Codec.RoundTrip2.
+
+Section C03.
+  Variable cfg : dcfg.
+  Hypothesis Harms : d_arms cfg = owned_arms.
+
+  (* bytes remaining after one complete term are reported, never ignored *)
+  Theorem C03_trailing_reported : forall t, wf t = true -> rt_ok (d_kcmp cfg) (d_kinsert cfg) t ->
+    forall b, enc t = EOk b -> forall x r, decode cfg (tag_version :: b ++ x :: r) = DTrailing (len (x :: r)).
+  Proof.
+    intros t Hwf Hok b Eb x r.
+    destruct (roundtrip cfg Harms (d_kcmp cfg) (d_kinsert cfg) eq_refl eq_refl t Hwf Hok) as (b' & Eb' & _ & Pb).
+    rewrite Eb in Eb'. inversion Eb'; subst b'.
+    unfold decode. rewrite N.eqb_refl. rewrite Pb by (rewrite app_length; cbn [length]; lia). reflexivity.
+  Qed.
+
+  (* INTEGER_EXT at any width-4 value, including values that would fit SMALL_INTEGER_EXT *)
+  Theorem C03_integer_ext_any : forall f n rest, n < 4294967296 ->
+    parse cfg (S f) (98 :: be 4 n ++ rest) = POk (TInt (to_i32 n)) rest.
+  Proof. intros f n rest Hn. exact (p_integer cfg Harms f n rest Hn). Qed.
+
+  (* SMALL_BIG_EXT / LARGE_BIG_EXT with any digit string, minimal or not: the value is the little-endian number *)
+  Theorem C03_small_big_any : forall f d sign rest, len d < 256 ->
+    exists t, parse cfg (S f) (110 :: len d :: sign :: d ++ rest) = POk t rest /\ denote t = VInt (big_value (negb (sign =? 0)) d).
+  Proof. intros f d sign rest Hd. eexists. split; [exact (p_small_big cfg Harms f d sign rest Hd)|reflexivity]. Qed.
+
+  (* SMALL_ATOM_UTF8_EXT / ATOM_UTF8_EXT for every UTF-8 name up to 65535 bytes *)
+  Theorem C03_atom_utf8_both_tags : forall f a rest, utf8_valid a = true -> len a <= 65535 ->
+    parse cfg (S f) (118 :: be 2 (len a) ++ a ++ rest) = POk (TAtom a) rest /\
+    (len a <= 255 -> parse cfg (S f) (119 :: len a :: a ++ rest) = POk (TAtom a) rest).
+  Proof.
+    intros f a rest Hu Hl. split.
+    - rewrite (parse_S cfg Harms). change (assoc 118 owned_arms) with (assoc tag_atom_utf8_ext owned_arms). rewrite arm_atom_utf8.
+      unfold parse_body, parse_atom_bytes. rewrite rd_app by (cbn; lia).
+      replace (max_atom_size <? len a) with false by (symmetry; apply N.ltb_ge; unfold max_atom_size; lia).
+      now rewrite takeN_app, Hu.
+    - intros Hs. rewrite (parse_S cfg Harms). change (assoc 119 owned_arms) with (assoc tag_small_atom_utf8_ext owned_arms). rewrite arm_small_atom_utf8.
+      unfold parse_body, parse_atom_bytes. rewrite rd1.
+      replace (max_atom_size <? len a) with false by (symmetry; apply N.ltb_ge; unfold max_atom_size; lia).
+      now rewrite takeN_app, Hu.
+  Qed.
+
+  (* ATOM_EXT / SMALL_ATOM_EXT: Latin-1, every byte one code point (fix commit 56c66fc) *)
+  Theorem C03_atom_latin1 : forall f a rest, len a <= 255 ->
+    parse cfg (S f) (115 :: len a :: a ++ rest) = POk (TAtom (latin1_to_utf8 a)) rest.
+  Proof.
+    intros f a rest Hl. rewrite (parse_S cfg Harms).
+    assert (E : assoc 115 owned_arms = Some 8) by (vm_compute; reflexivity). rewrite E.
+    unfold parse_body, parse_atom_latin1. rewrite rd1.
+    replace (max_atom_size <? len a) with false by (symmetry; apply N.ltb_ge; unfold max_atom_size; lia).
+    now rewrite takeN_app.
+  Qed.
+
+  (* STRING_EXT: a list of the byte values *)
+  Theorem C03_string_ext : forall f s rest, len s < 65536 ->
+    parse cfg (S f) (107 :: be 2 (len s) ++ s ++ rest) = POk (TList (map (fun b => TInt (Z.of_N b)) s)) rest.
+  Proof.
+    intros f s rest Hl. rewrite (parse_S cfg Harms).
+    assert (E : assoc 107 owned_arms = Some 12) by (vm_compute; reflexivity). rewrite E.
+    unfold parse_body. rewrite rd_app by (cbn; lia). now rewrite takeN_app.
+  Qed.
+
+  (* legacy PID_EXT (1-byte creation), NEW_PORT_EXT (fix commit dfdc6c6), PORT_EXT *)
+  Theorem C03_pid_ext_legacy : forall f node ba id ser cr rest,
+    wf_atom node = true -> enc_atom node = EOk ba -> id < 4294967296 -> ser < 4294967296 -> cr < 256 ->
+    parse cfg (S (S f)) (103 :: ba ++ be 4 id ++ be 4 ser ++ cr :: rest)
+      = POk (TPid {| pnode := node; pnum := id; pserial := ser; pcreation := cr; ploc := None |}) rest.
+  Proof.
+    intros f node ba id ser cr rest Hw Ea Hi Hs Hc. rewrite (parse_S cfg Harms).
+    assert (E : assoc 103 owned_arms = Some 28) by (vm_compute; reflexivity). rewrite E.
+    unfold parse_body, atom_of. rewrite (p_atom cfg Harms f node _ ba Hw Ea).
+    rewrite rd_app by (cbn; lia). rewrite rd_app by (cbn; lia). now rewrite rd1.
+  Qed.
+
+  Theorem C03_new_port_ext : forall f node ba id cr rest,
+    wf_atom node = true -> enc_atom node = EOk ba -> id < 4294967296 -> cr < 4294967296 ->
+    parse cfg (S (S f)) (89 :: ba ++ be 4 id ++ be 4 cr ++ rest) = POk (TPort node id cr None) rest.
+  Proof.
+    intros f node ba id cr rest Hw Ea Hi Hc. rewrite (parse_S cfg Harms).
+    assert (E : assoc 89 owned_arms = Some 32) by (vm_compute; reflexivity). rewrite E.
+    unfold parse_body, atom_of. rewrite (p_atom cfg Harms f node _ ba Hw Ea).
+    rewrite rd_app by (cbn; lia). now rewrite rd_app by (cbn; lia).
+  Qed.
+
+  (* LARGE_TUPLE_EXT is accepted for small arities too (non-minimal form) *)
+  Theorem C03_large_tuple_empty : forall f rest, parse cfg (S f) (105 :: 0 :: 0 :: 0 :: 0 :: rest) = POk (TTuple []) rest.
+  Proof.
+    intros f rest. rewrite (parse_S cfg Harms). change (assoc 105 owned_arms) with (assoc tag_large_tuple_ext owned_arms). rewrite arm_large_tuple.
+    reflexivity.
+  Qed.
+End C03.
+
+(* every tag of the format that an OTP 26+ peer may emit or the decoder claims to accept has an arm *)
+Theorem C03_no_missing_tags :
+  forallb (fun tag => match assoc tag owned_arms with Some _ => true | None => false end)
+    [70; 77; 80; 88; 89; 90; 97; 98; 99; 100; 101; 102; 103; 104; 105; 106; 107; 108; 109; 110; 111; 112; 113; 114; 115; 116; 118; 119; 120; 121] = true.
+Proof. vm_compute. reflexivity. Qed.
+
+(* recorded finding C03-map-numeric-keys on the faithful model (key order = the model of impl Ord) *)
+From EDP Require Import Order.Cmp.
+Theorem C03_refuted_numeric_keys :
+  let cfg := {| d_arms := owned_arms; d_cache := []; d_inflate := fun _ => None; d_float_text := fun _ => None;
+                d_kcmp := cmp_owned; d_kinsert := map_insert; d_extra_fuel := 0 |} in
+  (* #{1 => 10, 1.0 => 20} *)
+  decode cfg [131; 116; 0; 0; 0; 2; 97; 1; 97; 10; 70; 63; 240; 0; 0; 0; 0; 0; 0; 97; 20] = DOk (TMap [(TInt 1, TInt 20)]).
+Proof. vm_compute. reflexivity. Qed.
+
+Check C03_trailing_reported.
